@@ -1,5 +1,6 @@
 """Module that contains the methods for creating and connecting loop events"""
 
+import re
 from typing import Any, Generator
 from networkx import DiGraph
 
@@ -41,11 +42,9 @@ def get_new_loop_event_type_from_graph(graph: "DiGraph[Event]") -> str:
     """
     max_loop_event = 0
     for event in graph.nodes:
-        if LOOP_EVENT_TYPE in event.event_type:
-            max_loop_event = max(
-                int(event.event_type.split("_")[1]),
-                max_loop_event,
-            )
+        match = re.fullmatch(rf"{LOOP_EVENT_TYPE}_(\d+)", event.event_type)
+        if match:
+            max_loop_event = max(int(match.group(1)), max_loop_event)
     return f"{LOOP_EVENT_TYPE}_{max_loop_event + 1}"
 
 
